@@ -101,11 +101,16 @@ Definition comp_expected (tbl : table) (eff : list fval) (total : Z) : option (l
   | _, _, _ => None
   end.
 
-(* comp = [] : no component exists (yet): the proxy is created after the command-line overrides *)
+(* comp = [] : no component exists (yet): the proxy is created after the command-line overrides;
+   a memory cap of -1 : the cache is the file cache, which has none *)
 Definition comp_matches (tbl : table) (live : bool) (eff : list fval) (comp : list Z) : bool :=
   match comp with
   | [] => true
-  | [_; _; total; _] => live && match comp_expected tbl eff total with Some e => list_eqb Z.eqb e comp | None => false end
+  | [m; cap; total; d] =>
+      live && match comp_expected tbl eff total with
+              | Some [m'; cap'; _; d'] => (m =? m') && ((cap =? -1) || (cap =? cap')) && (d =? d')
+              | _ => false
+              end
   | _ => false
   end.
 
